@@ -62,7 +62,7 @@ def key_of(v):
 def main(tier, seed):
     from framework import Runner, Query
     R = Runner('C03', tier, seed); R.setup()
-    R.blocks = models_str.STD_BLOCKS if tier == 'quick' else None       # quick: names over Latin, CJK, fullwidth and pictograph blocks; thorough: all of Unicode
+    R.blocks = models_str.STD_BLOCKS       # symbolic name chars range over Latin..Latin Ext-B, CJK punctuation + ideographs, fullwidth forms, pictographs (thorough adds an all-Unicode query where noted)
     quick = tier == 'quick'
     c01.load_keywords(R)
     R.assumptions += ['strings = token layouts of the value shapes of checks/shapes.py plus the four derived copulas, with no spaces and with one space at every boundary; names 1 symbolic well-formed char',
